@@ -211,6 +211,7 @@ func buildConc(seed int64, kind string, prog [][]string) [][]concOp {
 		}
 	case "t2issuer":
 		iss := type2.NewBasicPublicIssuer(rsaKey(0))
+		issB := type2.NewBasicPublicIssuer(rsaKey(1))
 		concPrelude = append(concPrelude, func() {
 			bad := &type2.BasicPublicTokenRequest{TokenKeyID: iss.TokenKeyID()[31], BlindedReq: bytes.Repeat([]byte{0xff}, 256)}
 			if _, err := iss.Evaluate(bad); err == nil {
@@ -243,7 +244,12 @@ func buildConc(seed int64, kind string, prog [][]string) [][]concOp {
 						return tok.Marshal()
 					}
 				case "TokenKeyID":
-					op.run = func() []byte { return iss.TokenKeyID() }
+					// odd goroutines work on ANOTHER issuer object with another key: objects of one type share no state
+					ki := iss
+					if g%2 == 1 {
+						ki = issB
+					}
+					op.run = func() []byte { return ki.TokenKeyID() }
 				default: // TokenKey
 					op.run = func() []byte { return iss.TokenKey().N.Bytes() }
 				}
